@@ -4,21 +4,23 @@ From V Require Import Base.PyInt Gen.WireOps Model.SimKernel Model.Sort Spec.C04
 From Coq Require Import Permutation PeanoNat Arith.
 Local Open Scope nat_scope.
 
-(* ---- #13: a leaf that feeds itself is accepted ---- *)
+(* ---- #13 (repaired in /repo 04873f4): a leaf that feeds itself is now refused with the loop error ---- *)
 Definition selfloop_succ (x : nat) : list nat := match x with 0 => [0] | _ => [] end.
 
-Lemma selfloop_accepted :
+Lemma selfloop_refused :
   NoDup [0; 1] /\ closed selfloop_succ [0; 1] /\ self_loop selfloop_succ 0 /\
-  sort_fuel selfloop_succ py4hw_loop_limit [0; 1] = Some [0; 1].
+  sort_fuel selfloop_succ py4hw_loop_limit [0; 1] = LoopError 0 /\
+  sort_fuel selfloop_succ py4hw_loop_limit [1; 0] = LoopError 0.
 Proof.
-  split; [|split; [|split]].
+  split; [|split; [|split; [|split]]].
   - constructor; [simpl; intuition discriminate|]. constructor; [simpl; tauto|]. constructor.
   - intros x y Hx Hy. destruct x as [|[|x]]; simpl in Hy; intuition; subst; simpl; auto.
   - now left.
   - vm_compute. reflexivity.
+  - vm_compute. reflexivity.
 Qed.
 
-(* ... and the netlist it schedules is NOT settled by propagateAll: an inverter whose output is its own input *)
+(* why the refusal matters: a netlist with a self-feeding leaf is NOT settled by propagateAll (inverter on its own output) *)
 Definition inv_loop : design unit :=
   {| widths := [1%Z]; combs := [{| c_in := [0]; c_out := [0];
                                    c_f := fun ins => match ins with [a] => [Some (Z.lnot a)] | _ => [] end |}];
@@ -55,7 +57,7 @@ Proof. unfold rev_chain. apply NoDup_rev, seq_NoDup. Qed.
    K from 1 to 32 by computation (the real constant K = 1000 is replayed on the real simulator by the check) *)
 Definition limit_case (K : nat) : bool :=
   match sort_fuel (chain_succ (S K)) K (rev_chain (S K)), sort_fuel (chain_succ (S K)) (S K) (rev_chain (S K)) with
-  | None, Some l => if list_eq_dec Nat.eq_dec l (seq 0 (S K)) then true else false
+  | LimitError, Sorted l => if list_eq_dec Nat.eq_dec l (seq 0 (S K)) then true else false
   | _, _ => false
   end.
 
@@ -63,20 +65,20 @@ Lemma limit_cases : forallb limit_case (seq 1 32) = true.
 Proof. vm_compute. reflexivity. Qed.
 
 Lemma limit_rejects K : 1 <= K <= 32 ->
-  sort_fuel (chain_succ (S K)) K (rev_chain (S K)) = None /\
-  sort_fuel (chain_succ (S K)) (S K) (rev_chain (S K)) = Some (seq 0 (S K)).
+  sort_fuel (chain_succ (S K)) K (rev_chain (S K)) = LimitError /\
+  sort_fuel (chain_succ (S K)) (S K) (rev_chain (S K)) = Sorted (seq 0 (S K)).
 Proof.
   intros HK. pose proof limit_cases as H. rewrite forallb_forall in H.
   specialize (H K ltac:(apply in_seq; lia)). unfold limit_case in H.
-  destruct (sort_fuel (chain_succ (S K)) K (rev_chain (S K))); [discriminate|].
-  destruct (sort_fuel (chain_succ (S K)) (S K) (rev_chain (S K))) as [l|]; [|discriminate].
+  destruct (sort_fuel (chain_succ (S K)) K (rev_chain (S K))); try discriminate.
+  destruct (sort_fuel (chain_succ (S K)) (S K) (rev_chain (S K))) as [l| |]; try discriminate.
   destruct (list_eq_dec Nat.eq_dec l (seq 0 (S K))) as [->|]; [auto|discriminate].
 Qed.
 
 (* ---- non-vacuity instances ---- *)
 (* x=0, u=1, y=2 with u -> y -> x : instantiated sinks-first, needs two swapping passes *)
 Definition ex_succ (x : nat) : list nat := match x with 1 => [2] | 2 => [0] | _ => [] end.
-Lemma ex_sorts : sort_fuel ex_succ py4hw_loop_limit [0; 1; 2] = Some [1; 2; 0].
+Lemma ex_sorts : sort_fuel ex_succ py4hw_loop_limit [0; 1; 2] = Sorted [1; 2; 0].
 Proof. vm_compute. reflexivity. Qed.
 
 (* two leaves feeding each other *)
@@ -114,7 +116,7 @@ Definition two_bad_succ (x : nat) : list nat := match x with 1 => [0] | _ => [] 
 
 Lemma two_bad_represents : represents (combs two_bad) two_bad_succ /\ (forall i, ~ self_loop two_bad_succ i) /\
   single_driver (combs two_bad) /\
-  sort_fuel two_bad_succ py4hw_loop_limit (seq 0 (length (combs two_bad))) = Some [1; 0] /\
+  sort_fuel two_bad_succ py4hw_loop_limit (seq 0 (length (combs two_bad))) = Sorted [1; 0] /\
   reorder (combs two_bad) [1; 0] = combs two_good.
 Proof.
   split; [|split; [|split; [|split]]].
